@@ -106,8 +106,16 @@ func (ex *Exec) yield(cond func() bool) {
 		return
 	}
 	g := ex.curG
+	if cond == nil {
+		// voluntary switch point: switching away from a goroutine that could go on is a preemption; these
+		// are bounded (context bounding), blocking switches are not
+		if ex.preemptLeft <= 0 {
+			return
+		}
+	}
 	g.cond = cond
 	g.frame = ex.curFrame
+	voluntary := cond == nil
 	for {
 		if ex.gorPanic != nil && g.id == 0 {
 			p := ex.gorPanic
@@ -121,7 +129,23 @@ func (ex *Exec) yield(cond func() bool) {
 			}
 			panic(pathEnd{OutDeadlock, "all goroutines are blocked: " + ex.gorStates()})
 		}
-		pick := rs[ex.choose(len(rs))]
+		var pick *gor
+		if voluntary {
+			// decision 0 = keep running
+			others := []*gor{g}
+			for _, o := range rs {
+				if o != g {
+					others = append(others, o)
+				}
+			}
+			pick = others[ex.choose(len(others))]
+			if pick != g {
+				ex.preemptLeft--
+			}
+			voluntary = false
+		} else {
+			pick = rs[ex.choose(len(rs))]
+		}
 		if pick == g {
 			g.cond = nil
 			ex.curFrame = g.frame
